@@ -253,12 +253,17 @@ func gen(r *rand.Rand, idx int, tier string) Input {
 		for _, ty := range types {
 			st := SessType{Type: ty}
 			counters := map[string]uint64{}
+			if lib.Chance(r, 0.5) { // counters that have been running for a while: around 2^32, 2^33 (byte counters), 2^40
+				for _, sk := range stacks {
+					counters[string(sk)] = lib.Pick(r, []uint64{0, 1<<32 - 8, 1<<32 - 1, 1<<33 - 5, 3<<32 - 2, 1 << 40})
+				}
+			}
 			for w := 0; w < nw; w++ {
 				var win []trieu.KV
 				if !(w > 0 && lib.Chance(r, 0.35)) { // otherwise: an idle window, the spy reports nothing
 					for _, sk := range stacks {
 						if lib.Chance(r, 0.6) {
-							counters[string(sk)] += uint64(r.Intn(6))
+							counters[string(sk)] += uint64(r.Intn(12))
 							v := counters[string(sk)]
 							if lib.Chance(r, 0.1) {
 								v = uint64(r.Intn(3)) // a counter that went backwards
@@ -523,9 +528,22 @@ func run(in Input) (res lib.Result) {
 			"key_slices": map[string]string{"": "fresh", "shared-buffer": "shared-buffer", "mutate-after": "mutate-after"}[in.Reuse], "split": split, "underflow": underflow, "prev_only_key": prevOnly, "ratio": ratio,
 			"cur_nodes": trieu.Size(curDump), "diff_nodes": trieu.Size(diffDump), "max_fanout_gt16": maxFan(curDump) > 16,
 			"exact_multiple_count": exactMultiple(curIter, in.M, in.D), "count_ge_2^53": bigCount(curIter),
-			"one_side_ge_2^63": in.Ratio == "one-side-ge-2^63", "session_types": len(in.Sess), "session_idle_window": sessIdle(in.Sess)},
+			"one_side_ge_2^63": in.Ratio == "one-side-ge-2^63", "session_types": len(in.Sess), "session_idle_window": sessIdle(in.Sess), "session_count_ge_2^32": sessBig(in.Sess)},
 		Obs: map[string]interface{}{"diff": diffIter},
 	}
+}
+
+func sessBig(sess []SessType) bool {
+	for _, st := range sess {
+		for _, w := range st.Wins {
+			for _, kv := range w {
+				if kv.V >= 1<<32 {
+					return true
+				}
+			}
+		}
+	}
+	return false
 }
 
 func sessIdle(sess []SessType) bool {
